@@ -1,137 +1,882 @@
 import Model.Chain
-/-! Safety invariant of the Chain model: per-queue FIFO conservation and capacity. Core Lean only. -/
+/-! The ring invariant of the Chain model (faithful `Link`): stage input/output relation, queue
+conservation, poison bookkeeping, user-thread bookkeeping; preserved by every step.  Core Lean only. -/
 namespace KV.Chain
 
-theorem getD_set (l : List (List Item)) (j k : Nat) (v : List Item) :
-    (l.set j v).getD k [] = if j = k ∧ j < l.length then v else l.getD k [] := by
-  simp only [List.getD_eq_getElem?_getD, List.getElem?_set]
-  by_cases h : j = k
-  · subst h
-    by_cases h2 : j < l.length
-    · simp [h2]
-    · simp [h2]
-  · simp [h]
+/-! ### finite sums of a function -/
+def sumTo (f : Nat → Nat) : Nat → Nat
+  | 0 => 0
+  | k + 1 => sumTo f k + f k
 
-/-- per-queue conservation: everything pushed = everything popped ++ current content (so each stage
-receives exactly what its predecessor produced, in order), and no queue exceeds the block count -/
-structure CInv (c : Chain) : Prop where
-  len1 : c.pushed.length = c.qs.length
-  len2 : c.popped.length = c.qs.length
-  fifo : ∀ j, c.pushed.getD j [] = c.popped.getD j [] ++ c.qs.getD j []
-  capb : ∀ j, (c.qs.getD j []).length ≤ c.b
+theorem sumTo_congr {f g : Nat → Nat} {k : Nat} (h : ∀ i, i < k → f i = g i) : sumTo f k = sumTo g k := by
+  induction k with
+  | zero => rfl
+  | succ k ih =>
+    simp only [sumTo]
+    rw [ih (fun i hi => h i (by omega)), h k (by omega)]
 
-theorem CInv.frame {c c' : Chain} (h : CInv c) (h1 : c'.qs = c.qs) (h2 : c'.pushed = c.pushed)
-    (h3 : c'.popped = c.popped) (h4 : c'.b = c.b) : CInv c' := by
-  refine ⟨by rw [h1, h2]; exact h.len1, by rw [h1, h3]; exact h.len2, ?_, ?_⟩
-  · intro j; rw [h1, h2, h3]; exact h.fifo j
-  · intro j; rw [h1, h4]; exact h.capb j
+theorem sumTo_add (f g : Nat → Nat) (k : Nat) : sumTo (fun i => f i + g i) k = sumTo f k + sumTo g k := by
+  induction k with
+  | zero => rfl
+  | succ k ih => simp only [sumTo, ih]; omega
 
-theorem CInv.push {c : Chain} (h : CInv c) (j : Nat) (x : Item) (hlt : (c.qs.getD j []).length < c.b) :
-    CInv (c.push j x) := by
-  refine ⟨by simp [Chain.push, h.len1], by simp [Chain.push, h.len2], ?_, ?_⟩
-  · intro k
-    show (c.pushed.set j (c.pushed.getD j [] ++ [x])).getD k []
-        = c.popped.getD k [] ++ (c.qs.set j (c.qs.getD j [] ++ [x])).getD k []
-    rw [getD_set, getD_set, h.len1]
-    by_cases e : j = k ∧ j < c.qs.length
-    · rw [if_pos e, if_pos e]
-      obtain ⟨rfl, _⟩ := e
-      rw [h.fifo j, List.append_assoc]
-    · rw [if_neg e, if_neg e]; exact h.fifo k
-  · intro k
-    show ((c.qs.set j (c.qs.getD j [] ++ [x])).getD k []).length ≤ c.b
-    rw [getD_set]
-    by_cases e : j = k ∧ j < c.qs.length
-    · rw [if_pos e, List.length_append, List.length_singleton]; omega
-    · rw [if_neg e]; exact h.capb k
+theorem sumTo_shift (f : Nat → Nat) (k : Nat) : sumTo f (k + 1) = f 0 + sumTo (fun i => f (i + 1)) k := by
+  induction k with
+  | zero => simp [sumTo]
+  | succ k ih => rw [sumTo, ih]; simp only [sumTo]; omega
 
-theorem CInv.pop {c : Chain} (h : CInv c) (j : Nat) (x : Item) (rest : List Item)
-    (hq : c.qs.getD j [] = x :: rest) : CInv (c.pop j x rest) := by
-  refine ⟨by simp [Chain.pop, h.len1], by simp [Chain.pop, h.len2], ?_, ?_⟩
-  · intro k
-    show c.pushed.getD k [] = (c.popped.set j (c.popped.getD j [] ++ [x])).getD k [] ++ (c.qs.set j rest).getD k []
-    rw [getD_set, getD_set, h.len2]
-    by_cases e : j = k ∧ j < c.qs.length
-    · rw [if_pos e, if_pos e]
-      obtain ⟨rfl, _⟩ := e
-      rw [h.fifo j, hq, List.append_assoc]; rfl
-    · rw [if_neg e, if_neg e]; exact h.fifo k
-  · intro k
-    show ((c.qs.set j rest).getD k []).length ≤ c.b
-    rw [getD_set]
-    by_cases e : j = k ∧ j < c.qs.length
-    · rw [if_pos e]
-      have := h.capb j; rw [hq, List.length_cons] at this; omega
-    · rw [if_neg e]; exact h.capb k
+theorem le_sumTo (f : Nat → Nat) {i k : Nat} (h : i < k) : f i ≤ sumTo f k := by
+  induction k with
+  | zero => omega
+  | succ k ih =>
+    simp only [sumTo]
+    by_cases e : i = k
+    · subst e; omega
+    · have := ih (by omega); omega
 
-theorem cinv_init (b m : Nat) (data : List Nat) : CInv (Chain.init b m data) := by
-  refine ⟨by simp [Chain.init], by simp [Chain.init], ?_, ?_⟩
-  · intro j
-    simp only [Chain.init, List.getD_eq_getElem?_getD, List.getElem?_replicate]
-    by_cases h : j < m + 1 <;> simp [h]
-  · intro j
-    simp only [Chain.init, List.getD_eq_getElem?_getD, List.getElem?_replicate]
-    by_cases h : j < m + 1 <;> simp [h]
+theorem le_sumTo_two (f : Nat → Nat) {i j k : Nat} (hi : i < k) (hj : j < k) (hne : i ≠ j) :
+    f i + f j ≤ sumTo f k := by
+  induction k with
+  | zero => omega
+  | succ k ih =>
+    simp only [sumTo]
+    by_cases e : i = k
+    · subst e; have := le_sumTo f (i := j) (k := i) (by omega); omega
+    · by_cases e2 : j = k
+      · subst e2; have := le_sumTo f (i := i) (k := j) (by omega); omega
+      · have := ih (by omega) (by omega); omega
 
-theorem cinv_step {c c' : Chain} {tid : Nat} (h : CInv c) (hs : c.step tid = some c') : CInv c' := by
+theorem exists_pos_of_sumTo_pos {f : Nat → Nat} {k : Nat} (h : 0 < sumTo f k) : ∃ i, i < k ∧ 0 < f i := by
+  induction k with
+  | zero => simp [sumTo] at h
+  | succ k ih =>
+    simp only [sumTo] at h
+    by_cases e : 0 < f k
+    · exact ⟨k, by omega, e⟩
+    · obtain ⟨i, hi, hp⟩ := ih (by omega)
+      exact ⟨i, by omega, hp⟩
+
+theorem sumTo_upd (f : Nat → Nat) {i k : Nat} (v : Nat) (h : i < k) :
+    sumTo (upd f i v) k + f i = sumTo f k + v := by
+  induction k with
+  | zero => omega
+  | succ k ih =>
+    simp only [sumTo]
+    by_cases e : i = k
+    · subst e
+      have : sumTo (upd f i v) i = sumTo f i := sumTo_congr (fun j hj => by simp [upd]; omega)
+      simp [upd, this]; omega
+    · have := ih (by omega)
+      have e2 : upd f i v k = f k := by simp [upd]; omega
+      rw [e2]; omega
+
+/-! ### the deterministic stage function -/
+
+def bodyP (m : Nat) (data : List Nat) (i k v : Nat) : Option Nat :=
+  if i = 0 then data[k]? else if i = m then some v else some (xform (i + 1) v)
+
+theorem body_eq (c : Chain) (i k v : Nat) : c.body i k v = bodyP c.m c.data i k v := rfl
+
+/-- what stage `i` outputs for its `k`-th input -/
+def outOf (m : Nat) (data : List Nat) (i k : Nat) : Item → Item
+  | .val v => match bodyP m data i k v with
+    | some v' => .val v'
+    | none => .poison
+  | .poison => .poison
+
+def outFrom (m : Nat) (data : List Nat) (i : Nat) : Nat → List Item → List Item
+  | _, [] => []
+  | k, x :: xs => outOf m data i k x :: outFrom m data i (k + 1) xs
+
+theorem outFrom_append (m : Nat) (data : List Nat) (i k : Nat) (l : List Item) (x : Item) :
+    outFrom m data i k (l ++ [x]) = outFrom m data i k l ++ [outOf m data i (k + l.length) x] := by
+  induction l generalizing k with
+  | nil => simp [outFrom]
+  | cons a l ih =>
+    simp only [List.cons_append, outFrom, ih, List.length_cons]
+    have : k + 1 + l.length = k + (l.length + 1) := by omega
+    rw [this]
+
+theorem outFrom_length (m : Nat) (data : List Nat) (i k : Nat) (l : List Item) :
+    (outFrom m data i k l).length = l.length := by
+  induction l generalizing k with
+  | nil => rfl
+  | cons a l ih => simp [outFrom, ih]
+
+/-- items waiting in the hand of a stage: what its next `Produce` will push -/
+def pend (s : Stage) : List Item :=
+  match s.pc with
+  | .incProduce => [s.cur]
+  | .incPoison => [s.cur]
+  | .dtor => [s.cur]
+  | .poisonCall => [.poison]
+  | _ => []
+
+def consuming (s : Stage) : Prop := s.pc = .init ∨ s.pc = .incConsume
+def producing (s : Stage) : Prop :=
+  s.pc = .incProduce ∨ s.pc = .incPoison ∨ s.pc = .poisonCall ∨ s.pc = .dtor
+
+structure StageOK (m : Nat) (data : List Nat) (i : Nat) (s : Stage) : Prop where
+  r : s.out ++ pend s = outFrom m data i 0 s.inp
+  kProd : s.pc = .incProduce → ∃ v, s.cur = .val v
+  kPoi : s.pc = .incPoison → s.cur = .poison ∧ s.poisoned = true
+  kDtor : s.pc = .dtor → s.cur = .poison
+  fin : s.pc = .finished ↔ Item.poison ∈ s.out
+  last : Item.poison ∉ s.out.dropLast
+  nop : s.pc ≠ .incPoison → s.pc ≠ .dtor → s.pc ≠ .finished → Item.poison ∉ s.inp
+  startE : s.pc = .start → s.inp = []
+  len : s.inp.length ≤ data.length + 1
+  src : i = 0 → Item.poison ∉ s.inp
+
+/-- the state of a stage after it consumed `x` (as computed by `Chain.stageStep`) -/
+def afterConsume (m : Nat) (data : List Nat) (i : Nat) (s : Stage) (x : Item) : Stage :=
+  match s.pc with
+  | .init =>
+    let s1 : Stage := { s with poisoned := false, cur := x, inp := s.inp ++ [x] }
+    match x with
+    | .val v => match bodyP m data i s.inp.length v with
+      | some v' => { s1 with cur := .val v', pc := .incProduce }
+      | none => { s1 with pc := .poisonCall }
+    | .poison => exitLoop s1
+  | _ =>
+    let s1 : Stage := { s with cur := x, inp := s.inp ++ [x] }
+    match x with
+    | .val v => match bodyP m data i s.inp.length v with
+      | some v' => { s1 with cur := .val v', pc := .incProduce }
+      | none => { s1 with pc := .poisonCall }
+    | .poison => { s1 with poisoned := true, pc := .incPoison }
+
+theorem afterConsume_ok {m : Nat} {data : List Nat} {i : Nat} {s : Stage} (h : StageOK m data i s)
+    (hc : consuming s) (x : Item) (hlen : s.inp.length < data.length + 1) (hsrc : i = 0 → x ≠ .poison) :
+    StageOK m data i (afterConsume m data i s x)
+    ∧ (afterConsume m data i s x).inp = s.inp ++ [x]
+    ∧ (afterConsume m data i s x).out = s.out
+    ∧ (pend (afterConsume m data i s x)).length = 1
+    ∧ (afterConsume m data i s x).pc ≠ .start ∧ (afterConsume m data i s x).pc ≠ .finished := by
+  have hpend : pend s = [] := by rcases hc with e | e <;> simp [pend, e]
+  have hr := h.r
+  rw [hpend, List.append_nil] at hr
+  have hnf : ¬ Item.poison ∈ s.out := by
+    intro hp; have := h.fin.mpr hp; rcases hc with e | e <;> simp [e] at this
+  have hnop : Item.poison ∉ s.inp := by
+    apply h.nop <;> rcases hc with e | e <;> simp [e]
+  have happ := outFrom_append m data i 0 s.inp x
+  rw [Nat.zero_add, ← hr] at happ
+  rcases hc with e | e
+  · -- init
+    cases x with
+    | val v =>
+      cases hb : bodyP m data i s.inp.length v with
+      | some v' =>
+        simp only [afterConsume, e, hb]
+        refine ⟨⟨by simpa [pend, outOf, hb] using happ.symm, by simp, by simp, by simp, by simpa using hnf,
+                 h.last, by simpa using hnop, by simp, by simp; omega, by simpa using fun _ => hnop⟩,
+                by simp, by simp, by simp [pend], by simp, by simp⟩
+      | none =>
+        simp only [afterConsume, e, hb]
+        refine ⟨⟨by simpa [pend, outOf, hb] using happ.symm, by simp, by simp, by simp, by simpa using hnf,
+                 h.last, by simpa using hnop, by simp, by simp; omega, by simpa using fun _ => hnop⟩,
+                by simp, by simp, by simp [pend], by simp, by simp⟩
+    | poison =>
+      simp only [afterConsume, e, exitLoop]
+      refine ⟨⟨by simpa [pend, outOf] using happ.symm, by simp, by simp, by simp, by simpa using hnf,
+               h.last, by simp, by simp, by simp; omega, fun hi => absurd rfl (hsrc hi)⟩,
+              by simp, by simp, by simp [pend], by simp, by simp⟩
+  · cases x with
+    | val v =>
+      cases hb : bodyP m data i s.inp.length v with
+      | some v' =>
+        simp only [afterConsume, e, hb]
+        refine ⟨⟨by simpa [pend, outOf, hb] using happ.symm, by simp, by simp, by simp, by simpa using hnf,
+                 h.last, by simpa using hnop, by simp, by simp; omega, by simpa using fun _ => hnop⟩,
+                by simp, by simp, by simp [pend], by simp, by simp⟩
+      | none =>
+        simp only [afterConsume, e, hb]
+        refine ⟨⟨by simpa [pend, outOf, hb] using happ.symm, by simp, by simp, by simp, by simpa using hnf,
+                 h.last, by simpa using hnop, by simp, by simp; omega, by simpa using fun _ => hnop⟩,
+                by simp, by simp, by simp [pend], by simp, by simp⟩
+    | poison =>
+      simp only [afterConsume, e]
+      refine ⟨⟨by simpa [pend, outOf] using happ.symm, by simp, by simp, by simp, by simpa using hnf,
+               h.last, by simp, by simp, by simp; omega, fun hi => absurd rfl (hsrc hi)⟩,
+              by simp, by simp, by simp [pend], by simp, by simp⟩
+
+/-- the state of a stage after its pending `Produce` (as computed by `Chain.stageStep`) -/
+def afterProduce (s : Stage) : Stage :=
+  match s.pc with
+  | .incProduce => { s with pc := .incConsume, out := s.out ++ [s.cur] }
+  | .incPoison => exitLoop { s with out := s.out ++ [s.cur] }
+  | .poisonCall => exitLoop { s with cur := .poison, poisoned := true, out := s.out ++ [.poison] }
+  | .dtor => { s with pc := .finished, out := s.out ++ [s.cur] }
+  | _ => s
+
+theorem afterProduce_ok {m : Nat} {data : List Nat} {i : Nat} {s : Stage} (h : StageOK m data i s)
+    (hp : producing s) :
+    StageOK m data i (afterProduce s)
+    ∧ (afterProduce s).inp = s.inp
+    ∧ (afterProduce s).out = s.out ++ pend s
+    ∧ pend (afterProduce s) = []
+    ∧ (pend s).length = 1
+    ∧ (afterProduce s).pc ≠ .start := by
+  have hnf : ¬ Item.poison ∈ s.out := by
+    intro hq; have := h.fin.mpr hq
+    rcases hp with e | e | e | e <;> simp [e] at this
+  have hr := h.r
+  have hdl : ∀ x : Item, Item.poison ∉ (s.out ++ [x]).dropLast := by
+    intro x; simpa using hnf
+  rcases hp with e | e | e | e
+  · obtain ⟨v, hv⟩ := h.kProd e
+    have hnop := h.nop (by simp [e]) (by simp [e]) (by simp [e])
+    simp only [afterProduce, e]
+    simp only [pend, e] at hr
+    refine ⟨⟨by simpa [pend] using hr, by simp, by simp, by simp, by simp [hv, hnf], hdl _,
+             fun _ _ _ => hnop, by simp, h.len, h.src⟩, by simp, by simp [pend, e], by simp [pend], by simp [pend, e], by simp⟩
+  · obtain ⟨hc, hpo⟩ := h.kPoi e
+    simp only [afterProduce, e, exitLoop, hc, hpo, if_true]
+    simp only [pend, e, hc] at hr
+    refine ⟨⟨by simpa [pend] using hr, by simp, by simp, by simp, by simp, hdl _,
+             by simp, by simp, h.len, h.src⟩, by simp, by simp [pend, e, hc], by simp [pend], by simp [pend, e], by simp⟩
+  · have hnop := h.nop (by simp [e]) (by simp [e]) (by simp [e])
+    simp only [afterProduce, e, exitLoop, if_true]
+    simp only [pend, e] at hr
+    refine ⟨⟨by simpa [pend] using hr, by simp, by simp, by simp, by simp, hdl _,
+             by simp, by simp, h.len, h.src⟩, by simp, by simp [pend, e], by simp [pend], by simp [pend, e], by simp⟩
+  · have hc := h.kDtor e
+    simp only [afterProduce, e]
+    simp only [pend, e, hc] at hr
+    refine ⟨⟨by simpa [pend, hc] using hr, by simp, by simp, by simp, by simp [hc], hdl _,
+             by simp, by simp, h.len, h.src⟩, by simp, by simp [pend, e], by simp [pend], by simp [pend, e], by simp⟩
+
+/-! ### the global invariant -/
+
+def fillRem (c : Chain) : Nat := match c.main with | .fill k => k | _ => 0
+
+def MainOK (b m : Nat) (c : Chain) : Prop :=
+  match c.main with
+  | .fill k => k ≤ b ∧ (∀ i, i ≤ m → (c.st i).pc = .start) ∧ c.drained = []
+  | .join i => 1 ≤ i ∧ i ≤ m + 1 ∧ (∀ j, j + 1 < i → (c.st j).pc = .finished) ∧ c.drained = []
+  | .drain k => (∀ j, j ≤ m → (c.st j).pc = .finished) ∧ k = c.drained.length ∧ Item.poison ∉ c.drained
+  | .finished => (∀ j, j ≤ m → (c.st j).pc = .finished) ∧ Item.poison ∈ c.drained
+  | .aborted => False
+
+structure RInv (b m : Nat) (data : List Nat) (c : Chain) : Prop where
+  hb : c.b = b
+  hm : c.m = m
+  hd : c.data = data
+  bpos : 0 < b
+  mpos : 1 ≤ m
+  sok : ∀ i, i ≤ m → StageOK m data i (c.st i)
+  /-- stage `i+1` has received exactly a prefix of what stage `i` produced; the rest is in queue `i+1` -/
+  q : ∀ i, i < m → (c.st i).out = (c.st (i + 1)).inp ++ c.q (i + 1)
+  /-- queue 0: the blocks of `Chain::Start`, then the recycler's output; read by the source, then by `Wait` -/
+  q0 : List.replicate (b - fillRem c) (Item.val 0) ++ (c.st m).out = (c.st 0).inp ++ c.drained ++ c.q 0
+  mainok : MainOK b m c
+
+variable {b m : Nat} {data : List Nat} {c : Chain}
+
+theorem RInv.unfinished (h : RInv b m data c) {i : Nat} (hi : i ≤ m) (hnf : (c.st i).pc ≠ .finished) :
+    c.drained = [] ∧ (∀ k, c.main = .fill k → (c.st i).pc = .start) ∧ c.main ≠ .finished ∧ c.main ≠ .aborted
+    ∧ (∀ k, c.main ≠ .drain k) := by
+  have hmain := h.mainok
+  unfold MainOK at hmain
+  cases hm : c.main with
+  | fill k =>
+    rw [hm] at hmain
+    exact ⟨hmain.2.2, fun _ _ => hmain.2.1 i hi, fun e => (by cases e), fun e => (by cases e), fun _ e => (by cases e)⟩
+  | join j =>
+    rw [hm] at hmain
+    exact ⟨hmain.2.2.2, fun _ e => (by cases e), fun e => (by cases e), fun e => (by cases e), fun _ e => (by cases e)⟩
+  | drain k => rw [hm] at hmain; exact absurd (hmain.1 i hi) hnf
+  | finished => rw [hm] at hmain; exact absurd (hmain.1 i hi) hnf
+  | aborted => rw [hm] at hmain; exact hmain.elim
+
+theorem outOf_ne_poison {i : Nat} (hi : i ≠ 0) (k v : Nat) : outOf m data i k (.val v) ≠ .poison := by
+  unfold outOf bodyP
+  simp only [hi, if_false]
+  by_cases e : i = m <;> simp [e]
+
+theorem outFrom_poison_mem {i : Nat} (hi : i ≠ 0) {k : Nat} {l : List Item}
+    (h : Item.poison ∈ outFrom m data i k l) : Item.poison ∈ l := by
+  induction l generalizing k with
+  | nil => simp [outFrom] at h
+  | cons a l ih =>
+    simp only [outFrom, List.mem_cons] at h
+    rcases h with h | h
+    · cases a with
+      | val v => exact absurd h.symm (outOf_ne_poison hi k v)
+      | poison => simp
+    · exact List.mem_cons_of_mem _ (ih h)
+
+/-- a finished stage has all its predecessors finished (poison travels in ring order) -/
+theorem RInv.fin_pred (h : RInv b m data c) {j : Nat} (hj : j + 1 ≤ m)
+    (hf : (c.st (j + 1)).pc = .finished) : (c.st j).pc = .finished := by
+  have ok := h.sok (j + 1) hj
+  have hp : Item.poison ∈ (c.st (j + 1)).out := ok.fin.mp hf
+  have : Item.poison ∈ outFrom m data (j + 1) 0 (c.st (j + 1)).inp := by
+    rw [← ok.r]; exact List.mem_append_left _ hp
+  have hin := outFrom_poison_mem (by omega) this
+  have hq := h.q j (by omega)
+  have : Item.poison ∈ (c.st j).out := by rw [hq]; exact List.mem_append_left _ hin
+  exact (h.sok j (by omega)).fin.mpr this
+
+theorem RInv.fin_le (h : RInv b m data c) {j : Nat} (hj : j ≤ m) (hf : (c.st j).pc = .finished) :
+    ∀ i, i ≤ j → (c.st i).pc = .finished := by
+  induction j with
+  | zero => intro i hi; have : i = 0 := by omega
+            subst this; exact hf
+  | succ j ih =>
+    intro i hi
+    by_cases e : i = j + 1
+    · subst e; exact hf
+    · exact ih (by omega) (h.fin_pred hj hf) i (by omega)
+
+/-- conservation of blocks: queues + hands + drained + not yet put into queue 0 = `b` -/
+theorem RInv.conservation (h : RInv b m data c) :
+    sumTo (fun j => (c.q j).length) (m + 1) + sumTo (fun i => (pend (c.st i)).length) (m + 1)
+      + c.drained.length + fillRem c = b := by
+  have hfr : fillRem c ≤ b := by
+    have hmain := h.mainok
+    unfold MainOK at hmain
+    unfold fillRem
+    cases hm : c.main <;> simp only [hm] at hmain ⊢ <;> omega
+  -- per stage: |out| + |pend| = |inp|
+  have e1 : sumTo (fun i => (c.st i).out.length) (m + 1) + sumTo (fun i => (pend (c.st i)).length) (m + 1)
+      = sumTo (fun i => (c.st i).inp.length) (m + 1) := by
+    rw [← sumTo_add]
+    apply sumTo_congr
+    intro i hi
+    have := congrArg List.length (h.sok i (by omega)).r
+    rw [List.length_append, outFrom_length] at this
+    exact this
+  -- per queue i+1
+  have e2 : sumTo (fun i => (c.st i).out.length) m
+      = sumTo (fun i => (c.st (i + 1)).inp.length) m + sumTo (fun i => (c.q (i + 1)).length) m := by
+    rw [← sumTo_add]
+    apply sumTo_congr
+    intro i hi
+    have := congrArg List.length (h.q i hi)
+    rw [List.length_append] at this
+    exact this
+  have e3 := congrArg List.length h.q0
+  simp only [List.length_append, List.length_replicate] at e3
+  have s1 : sumTo (fun i => (c.st i).inp.length) (m + 1)
+      = (c.st 0).inp.length + sumTo (fun i => (c.st (i + 1)).inp.length) m := sumTo_shift _ m
+  have s2 : sumTo (fun j => (c.q j).length) (m + 1)
+      = (c.q 0).length + sumTo (fun i => (c.q (i + 1)).length) m := sumTo_shift _ m
+  have s3 : sumTo (fun i => (c.st i).out.length) (m + 1)
+      = sumTo (fun i => (c.st i).out.length) m + (c.st m).out.length := rfl
+  omega
+
+theorem MainOK.upd_stage (h : MainOK b m c) {i : Nat} (hi : i ≤ m) (hnf : (c.st i).pc ≠ .finished)
+    (hns : ∀ k, c.main ≠ .fill k) (q' : Nat → List Item) (s' : Stage) :
+    MainOK b m { c with q := q', st := upd c.st i s' } := by
+  unfold MainOK at h ⊢
+  cases hm : c.main with
+  | fill k => exact absurd hm (hns k)
+  | join j =>
+    simp only [hm] at h ⊢
+    refine ⟨h.1, h.2.1, ?_, h.2.2.2⟩
+    intro j' hj'
+    by_cases e : j' = i
+    · subst e; exact absurd (h.2.2.1 j' hj') hnf
+    · simp only [upd, e, if_false]; exact h.2.2.1 j' hj'
+  | drain k => simp only [hm] at h; exact absurd (h.1 i hi) hnf
+  | finished => simp only [hm] at h; exact absurd (h.1 i hi) hnf
+  | aborted => simp only [hm] at h
+
+theorem outFrom_append' (m : Nat) (data : List Nat) (i k : Nat) (l1 l2 : List Item) :
+    outFrom m data i k (l1 ++ l2) = outFrom m data i k l1 ++ outFrom m data i (k + l1.length) l2 := by
+  induction l1 generalizing k with
+  | nil => simp [outFrom]
+  | cons a l ih =>
+    simp only [List.cons_append, outFrom, ih, List.length_cons]
+    have : k + 1 + l.length = k + (l.length + 1) := by omega
+    rw [this]
+
+/-- the source turns its `(n+1)`-th block into poison, whatever it contains -/
+theorem outFrom_src_poison {l : List Item} (hl : data.length < l.length) :
+    Item.poison ∈ outFrom m data 0 0 l := by
+  have hsplit : l = l.take data.length ++ l.drop data.length := (List.take_append_drop _ _).symm
+  have hne : l.drop data.length ≠ [] := by
+    intro e; have := congrArg List.length e; simp at this; omega
+  rw [hsplit, outFrom_append']
+  apply List.mem_append_right
+  cases hd : l.drop data.length with
+  | nil => exact absurd hd hne
+  | cons x xs =>
+    have hk : 0 + (l.take data.length).length = data.length := by simp; omega
+    rw [hk]
+    simp only [outFrom, List.mem_cons]
+    left
+    cases x with
+    | val v => simp [outOf, bodyP]
+    | poison => rfl
+
+theorem RInv.stage_consume (h : RInv b m data c) {i : Nat} (hi : i ≤ m) (hc : consuming (c.st i))
+    {x : Item} {rest : List Item} (hq : c.q i = x :: rest) :
+    RInv b m data { c with q := upd c.q i rest, st := upd c.st i (afterConsume m data i (c.st i) x) } := by
+  have ok := h.sok i hi
+  have hnf : (c.st i).pc ≠ .finished := by rcases hc with e | e <;> simp [e]
+  have hnstart : (c.st i).pc ≠ .start := by rcases hc with e | e <;> simp [e]
+  obtain ⟨hdr, hfill, _, _, _⟩ := h.unfinished hi hnf
+  have hns : ∀ k, c.main ≠ .fill k := fun k e => hnstart (hfill k e)
+  have hfr : fillRem c = 0 := by
+    unfold fillRem; cases hm : c.main <;> simp
+    exact absurd hm (hns _)
+  have hpend : pend (c.st i) = [] := by rcases hc with e | e <;> simp [pend, e]
+  have hnfout : Item.poison ∉ (c.st i).out := fun hp => hnf (ok.fin.mpr hp)
+  -- the source never receives poison
+  have hsrc : i = 0 → x ≠ .poison := by
+    intro hi0 hx
+    subst hi0; subst hx
+    have hq0 := h.q0
+    have : Item.poison ∈ (c.st 0).inp ++ c.drained ++ c.q 0 := by
+      rw [hq]; simp
+    rw [← hq0] at this
+    rcases List.mem_append.mp this with hp | hp
+    · simp at hp
+    · have hfm := (h.sok m (Nat.le_refl _)).fin.mpr hp
+      exact hnf (h.fin_le (Nat.le_refl _) hfm 0 (by omega))
+  -- it has not yet consumed its last item
+  have hlen : (c.st i).inp.length < data.length + 1 := by
+    by_cases hi0 : i = 0
+    · subst hi0
+      apply Classical.byContradiction
+      intro hge
+      have hr := ok.r
+      rw [hpend, List.append_nil] at hr
+      have := outFrom_src_poison (m := m) (data := data) (l := (c.st 0).inp) (by omega)
+      rw [← hr] at this
+      exact hnfout this
+    · obtain ⟨j, rfl⟩ : ∃ j, i = j + 1 := ⟨i - 1, by omega⟩
+      have hqj := congrArg List.length (h.q j (by omega))
+      rw [hq, List.length_append, List.length_cons] at hqj
+      have okj := h.sok j (by omega)
+      have hrj := congrArg List.length okj.r
+      rw [List.length_append, outFrom_length] at hrj
+      have := okj.len
+      omega
+  obtain ⟨ok', hinp, hout, _, hns', hnf'⟩ := afterConsume_ok ok hc x hlen hsrc
+  refine { hb := h.hb, hm := h.hm, hd := h.hd, bpos := h.bpos, mpos := h.mpos, sok := ?_, q := ?_, q0 := ?_,
+           mainok := h.mainok.upd_stage hi hnf hns _ _ }
+  · intro j hj
+    by_cases e : j = i
+    · subst e; simpa [upd] using ok'
+    · simpa [upd, e] using h.sok j hj
+  · intro j hj
+    have hqj := h.q j hj
+    by_cases e : j = i
+    · subst e
+      have e2 : j + 1 ≠ j := by omega
+      simp only [upd, if_true, e2, if_false, hout]
+      exact hqj
+    · by_cases e3 : j + 1 = i
+      · subst e3
+        simp only [upd, e, if_false, if_true, hinp]
+        rw [hqj, hq]; simp
+      · simp only [upd, e, e3, if_false]
+        exact hqj
+  · have hq0 := h.q0
+    have hmp := h.mpos
+    show List.replicate (b - fillRem c) (Item.val 0) ++ (upd c.st i _ m).out
+        = (upd c.st i _ 0).inp ++ c.drained ++ upd c.q i rest 0
+    by_cases e0 : i = 0
+    · subst e0
+      have em : m ≠ 0 := by omega
+      simp only [upd, em, if_false, if_true, hinp]
+      rw [hq0, hq, hdr]; simp
+    · have e0' : (0 : Nat) ≠ i := fun e => e0 e.symm
+      by_cases em : m = i
+      · subst em
+        simp only [upd, if_true, e0', if_false, hout]
+        exact hq0
+      · simp only [upd, em, e0', if_false]
+        exact hq0
+
+theorem RInv.stage_produce (h : RInv b m data c) {i : Nat} (hi : i ≤ m) (hp : producing (c.st i))
+    {x : Item} (hx : pend (c.st i) = [x]) :
+    RInv b m data { c with q := upd c.q (c.outQ i) (c.q (c.outQ i) ++ [x]),
+                           st := upd c.st i (afterProduce (c.st i)) } := by
+  have ok := h.sok i hi
+  have hnf : (c.st i).pc ≠ .finished := by rcases hp with e | e | e | e <;> simp [e]
+  have hnstart : (c.st i).pc ≠ .start := by rcases hp with e | e | e | e <;> simp [e]
+  obtain ⟨hdr, hfill, _, _, _⟩ := h.unfinished hi hnf
+  have hns : ∀ k, c.main ≠ .fill k := fun k e => hnstart (hfill k e)
+  obtain ⟨ok', hinp, hout, _, _, _⟩ := afterProduce_ok ok hp
+  rw [hx] at hout
+  have hmp := h.mpos
+  have hoq : c.outQ i = if i = m then 0 else i + 1 := by unfold Chain.outQ; rw [h.hm]
+  refine { hb := h.hb, hm := h.hm, hd := h.hd, bpos := h.bpos, mpos := h.mpos, sok := ?_, q := ?_, q0 := ?_,
+           mainok := h.mainok.upd_stage hi hnf hns _ _ }
+  · intro j hj
+    by_cases e : j = i
+    · subst e; simpa [upd] using ok'
+    · simpa [upd, e] using h.sok j hj
+  · intro j hj
+    have hqj := h.q j hj
+    by_cases e : j = i
+    · subst e
+      have e1 : j ≠ m := by omega
+      have e2 : j + 1 ≠ j := by omega
+      simp only [hoq, e1, if_false, upd, if_true, e2, hout]
+      rw [hqj]; simp
+    · have e4 : j + 1 ≠ c.outQ i := by
+        rw [hoq]; by_cases em : i = m <;> simp [em] <;> omega
+      by_cases e3 : j + 1 = i
+      · subst e3
+        simp only [upd, e, if_false, if_true, hinp, e4]
+        exact hqj
+      · simp only [upd, e, e3, e4, if_false]
+        exact hqj
+  · have hq0 := h.q0
+    show List.replicate (b - fillRem c) (Item.val 0) ++ (upd c.st i _ m).out
+        = (upd c.st i _ 0).inp ++ c.drained ++ upd c.q (c.outQ i) _ 0
+    by_cases em : i = m
+    · subst em
+      have e0 : (0 : Nat) ≠ i := by omega
+      have : c.outQ i = 0 := by rw [hoq]; simp
+      simp only [this, upd, if_true, e0, if_false, hout]
+      rw [← List.append_assoc, hq0]; simp
+    · have em' : m ≠ i := fun e => em e.symm
+      have e1 : (0 : Nat) ≠ c.outQ i := by rw [hoq]; simp [em]
+      by_cases e0 : i = 0
+      · subst e0
+        simp only [upd, em', if_false, if_true, hinp, e1]
+        exact hq0
+      · have e0' : (0 : Nat) ≠ i := fun e => e0 e.symm
+        simp only [upd, em', e0', e1, if_false]
+        exact hq0
+
+theorem RInv.stage_start (h : RInv b m data c) {i : Nat} (hi : i ≤ m) (hs : (c.st i).pc = .start)
+    (hns : ∀ k, c.main ≠ .fill k) :
+    RInv b m data { c with st := upd c.st i { c.st i with pc := .init } } := by
+  have ok := h.sok i hi
+  have hnf : (c.st i).pc ≠ .finished := by simp [hs]
+  have hpe : pend (c.st i) = [] := by simp [pend, hs]
+  have hr := ok.r
+  rw [hpe, List.append_nil] at hr
+  have ok' : StageOK m data i { c.st i with pc := .init } := by
+    refine ⟨by simpa [pend] using hr, by simp, by simp, by simp, ?_, ok.last, ?_, by simp, ok.len, ok.src⟩
+    · have := ok.fin; simp [hs] at this; simpa using this
+    · intro _ _ _; exact ok.nop (by simp [hs]) (by simp [hs]) (by simp [hs])
+  have hmo := h.mainok.upd_stage hi hnf hns c.q { c.st i with pc := .init }
+  refine { hb := h.hb, hm := h.hm, hd := h.hd, bpos := h.bpos, mpos := h.mpos, sok := ?_, q := ?_, q0 := ?_,
+           mainok := hmo }
+  · intro j hj
+    by_cases e : j = i
+    · subst e; simpa [upd] using ok'
+    · simpa [upd, e] using h.sok j hj
+  · intro j hj
+    have hqj := h.q j hj
+    have a : (upd c.st i { c.st i with pc := .init } j).out = (c.st j).out := by
+      by_cases e : j = i <;> simp [upd, e]
+    have b' : (upd c.st i { c.st i with pc := .init } (j + 1)).inp = (c.st (j + 1)).inp := by
+      by_cases e : j + 1 = i <;> simp [upd, e]
+    show (upd c.st i _ j).out = (upd c.st i _ (j + 1)).inp ++ c.q (j + 1)
+    rw [a, b']; exact hqj
+  · have a : (upd c.st i { c.st i with pc := .init } m).out = (c.st m).out := by
+      by_cases e : m = i <;> simp [upd, e]
+    have b' : (upd c.st i { c.st i with pc := .init } 0).inp = (c.st 0).inp := by
+      by_cases e : 0 = i <;> simp [upd, e]
+    show List.replicate (b - fillRem c) (Item.val 0) ++ (upd c.st i _ m).out
+        = (upd c.st i _ 0).inp ++ c.drained ++ c.q 0
+    rw [a, b']; exact h.q0
+
+theorem RInv.main_fill (h : RInv b m data c) {k : Nat} (hmn : c.main = .fill (k + 1)) :
+    RInv b m data { c with q := upd c.q 0 (c.q 0 ++ [.val 0]), main := if k = 0 then .join 1 else .fill k } := by
+  have hmain := h.mainok
+  unfold MainOK at hmain
+  rw [hmn] at hmain
+  obtain ⟨hk, hst, hdr⟩ := hmain
+  have hin : ∀ i, i ≤ m → (c.st i).inp = [] ∧ (c.st i).out = [] := by
+    intro i hi
+    have ok := h.sok i hi
+    have e := ok.startE (hst i hi)
+    have hr := ok.r
+    rw [e] at hr
+    simp [outFrom] at hr
+    exact ⟨e, hr.1⟩
+  have hq0 := h.q0
+  have hfr : fillRem c = k + 1 := by unfold fillRem; rw [hmn]
+  rw [hfr, (hin m (Nat.le_refl _)).2, (hin 0 (by omega)).1, hdr] at hq0
+  simp at hq0
+  have hmp := h.mpos
+  refine { hb := h.hb, hm := h.hm, hd := h.hd, bpos := h.bpos, mpos := h.mpos, sok := h.sok, q := ?_, q0 := ?_,
+           mainok := ?_ }
+  · intro j hj
+    have : j + 1 ≠ 0 := by omega
+    show (c.st j).out = (c.st (j + 1)).inp ++ upd c.q 0 (c.q 0 ++ [.val 0]) (j + 1)
+    simp only [upd, this, if_false]; exact h.q j hj
+  · have hfr' : fillRem { c with q := upd c.q 0 (c.q 0 ++ [.val 0]), main := if k = 0 then .join 1 else .fill k } = k := by
+      unfold fillRem
+      by_cases e : k = 0 <;> simp [e]
+    rw [hfr']
+    show List.replicate (b - k) (Item.val 0) ++ (c.st m).out
+        = (c.st 0).inp ++ c.drained ++ upd c.q 0 (c.q 0 ++ [.val 0]) 0
+    rw [(hin m (Nat.le_refl _)).2, (hin 0 (by omega)).1, hdr]
+    simp only [upd, if_true, List.append_nil, List.nil_append, ← hq0]
+    have : b - k = (b - (k + 1)) + 1 := by omega
+    rw [this, List.replicate_succ']
+  · unfold MainOK
+    by_cases e : k = 0
+    · simp only [e, if_true]
+      exact ⟨by omega, by omega, fun j hj => by omega, hdr⟩
+    · simp only [e, if_false]
+      exact ⟨by omega, hst, hdr⟩
+
+theorem RInv.main_fill0 (h : RInv b m data c) (hmn : c.main = .fill 0) :
+    RInv b m data { c with main := .join 1 } := by
+  have hmain := h.mainok
+  unfold MainOK at hmain
+  rw [hmn] at hmain
+  have hq0 := h.q0
+  have hfr : fillRem c = 0 := by unfold fillRem; rw [hmn]
+  rw [hfr] at hq0
+  exact { hb := h.hb, hm := h.hm, hd := h.hd, bpos := h.bpos, mpos := h.mpos, sok := h.sok, q := h.q,
+          q0 := hq0, mainok := by unfold MainOK; exact ⟨by omega, by omega, fun j hj => by omega, hmain.2.2⟩ }
+
+theorem RInv.main_join (h : RInv b m data c) {i : Nat} (hmn : c.main = .join i)
+    (hf : (c.st (i - 1)).pc = .finished) :
+    RInv b m data { c with main := if i = m + 1 then .drain 0 else .join (i + 1) } := by
+  have hmain := h.mainok
+  unfold MainOK at hmain
+  rw [hmn] at hmain
+  obtain ⟨h1, h2, h3, hdr⟩ := hmain
+  have hq0 := h.q0
+  have hfr : fillRem c = 0 := by unfold fillRem; rw [hmn]
+  rw [hfr] at hq0
+  have hfr' : fillRem { c with main := if i = m + 1 then .drain 0 else .join (i + 1) } = 0 := by
+    unfold fillRem; by_cases e : i = m + 1 <;> simp [e]
+  refine { hb := h.hb, hm := h.hm, hd := h.hd, bpos := h.bpos, mpos := h.mpos, sok := h.sok, q := h.q,
+           q0 := by rw [hfr']; exact hq0, mainok := ?_ }
+  unfold MainOK
+  by_cases e : i = m + 1
+  · simp only [e, if_true]
+    refine ⟨?_, by simp [hdr], by simp [hdr]⟩
+    intro j hj
+    by_cases ej : j = m
+    · subst ej; subst e; simpa using hf
+    · exact h3 j (by omega)
+  · simp only [e, if_false]
+    refine ⟨by omega, by omega, ?_, hdr⟩
+    intro j hj
+    by_cases ej : j + 1 = i
+    · subst ej; simpa using hf
+    · exact h3 j (by omega)
+
+theorem RInv.main_drain (h : RInv b m data c) {k : Nat} (hmn : c.main = .drain k) {x : Item}
+    {rest : List Item} (hq : c.q 0 = x :: rest) :
+    k < b ∧ RInv b m data { c with q := upd c.q 0 rest, drained := c.drained ++ [x],
+                                    main := match x with | .poison => .finished | .val _ => .drain (k + 1) } := by
+  have hmain := h.mainok
+  unfold MainOK at hmain
+  rw [hmn] at hmain
+  obtain ⟨hall, hk, hnp⟩ := hmain
+  have hq0 := h.q0
+  have hfr : fillRem c = 0 := by unfold fillRem; rw [hmn]
+  have hcons := h.conservation
+  have hle := le_sumTo (fun j => (c.q j).length) (i := 0) (k := m + 1) (by omega)
+  simp only [hq, List.length_cons] at hle
+  have hkb : k < b := by omega
+  refine ⟨hkb, ?_⟩
+  have hfr' : ∀ mn, (mn = MPC.finished ∨ mn = MPC.drain (k + 1)) →
+      fillRem { c with q := upd c.q 0 rest, drained := c.drained ++ [x], main := mn } = 0 := by
+    intro mn hmn'; unfold fillRem; rcases hmn' with e | e <;> simp [e]
+  refine { hb := h.hb, hm := h.hm, hd := h.hd, bpos := h.bpos, mpos := h.mpos, sok := h.sok, q := ?_, q0 := ?_,
+           mainok := ?_ }
+  · intro j hj
+    have : j + 1 ≠ 0 := by omega
+    show (c.st j).out = (c.st (j + 1)).inp ++ upd c.q 0 rest (j + 1)
+    simp only [upd, this, if_false]; exact h.q j hj
+  · rw [hfr' _ (by cases x <;> simp)]
+    rw [hfr] at hq0
+    show List.replicate (b - 0) (Item.val 0) ++ (c.st m).out = (c.st 0).inp ++ (c.drained ++ [x]) ++ upd c.q 0 rest 0
+    rw [hq0, hq]; simp [upd]
+  · unfold MainOK
+    cases x with
+    | poison => exact ⟨hall, by simp⟩
+    | val v => exact ⟨hall, by simp [hk], by simpa using hnp⟩
+
+/-! ### every step preserves the invariant -/
+
+theorem loopTest_eq_init (hm : c.m = m) (hd : c.data = data) {i : Nat} {s : Stage} (hpc : s.pc = .init)
+    (x : Item) :
+    c.loopTest i s.inp.length { s with poisoned := false, cur := x, inp := s.inp ++ [x] }
+      = afterConsume m data i s x := by
+  cases x with
+  | poison => simp [Chain.loopTest, afterConsume, hpc]
+  | val v =>
+    simp only [Chain.loopTest, afterConsume, hpc, body_eq, hm, hd]
+    cases bodyP m data i s.inp.length v <;> rfl
+
+theorem loopTest_eq_inc (hm : c.m = m) (hd : c.data = data) {i : Nat} {s : Stage} (hpc : s.pc = .incConsume)
+    (v : Nat) :
+    c.loopTest i s.inp.length { s with cur := .val v, inp := s.inp ++ [.val v] }
+      = afterConsume m data i s (.val v) := by
+  simp only [Chain.loopTest, afterConsume, hpc, body_eq, hm, hd]
+  cases bodyP m data i s.inp.length v <;> rfl
+
+theorem fifoPush_some {α : Type} {cap : Nat} {buf buf' : List α} {x : α} (h : fifoPush cap buf x = some buf') :
+    buf.length < cap ∧ buf' = buf ++ [x] := by
+  unfold fifoPush at h
+  by_cases e : buf.length < cap
+  · rw [if_pos e] at h; cases h; exact ⟨e, rfl⟩
+  · rw [if_neg e] at h; cases h
+
+theorem fifoPop_some {α : Type} {buf rest : List α} {x : α} (h : fifoPop buf = some (x, rest)) :
+    buf = x :: rest := by
+  cases buf with
+  | nil => simp [fifoPop] at h
+  | cons a l => simp [fifoPop] at h; rw [h.1, h.2]
+
+theorem rinv_stageStep (h : RInv b m data c) {i : Nat} (hi : i ≤ m) {c' : Chain}
+    (hs : c.stageStep i = some c') : RInv b m data c' := by
+  unfold Chain.stageStep at hs
+  simp only at hs
+  cases hpc : (c.st i).pc with
+  | start =>
+    simp only [hpc] at hs
+    cases hmn : c.main with
+    | fill k => simp [hmn] at hs
+    | join j =>
+      simp only [hmn] at hs; cases hs
+      simpa [hmn] using h.stage_start hi hpc (fun k e => by rw [hmn] at e; cases e)
+    | drain j =>
+      simp only [hmn] at hs; cases hs
+      simpa [hmn] using h.stage_start hi hpc (fun k e => by rw [hmn] at e; cases e)
+    | aborted =>
+      simp only [hmn] at hs; cases hs
+      simpa [hmn] using h.stage_start hi hpc (fun k e => by rw [hmn] at e; cases e)
+    | finished =>
+      simp only [hmn] at hs; cases hs
+      simpa [hmn] using h.stage_start hi hpc (fun k e => by rw [hmn] at e; cases e)
+  | init =>
+    simp only [hpc] at hs
+    cases hq : fifoPop (c.q i) with
+    | none => simp [hq] at hs
+    | some pr =>
+      obtain ⟨x, rest⟩ := pr
+      simp only [hq] at hs; cases hs
+      have e := loopTest_eq_init (c := c) (i := i) h.hm h.hd hpc x
+      simp only [hpc] at e
+      rw [e]
+      exact h.stage_consume hi (Or.inl hpc) (fifoPop_some hq)
+  | incConsume =>
+    simp only [hpc] at hs
+    cases hq : fifoPop (c.q i) with
+    | none => simp [hq] at hs
+    | some pr =>
+      obtain ⟨x, rest⟩ := pr
+      simp only [hq] at hs; cases hs
+      have := h.stage_consume hi (Or.inr hpc) (fifoPop_some hq)
+      cases x with
+      | poison => simpa [afterConsume, hpc] using this
+      | val v =>
+        have e := loopTest_eq_inc (c := c) (i := i) h.hm h.hd hpc v
+        simp only [hpc] at e
+        simp only []
+        rw [e]; exact this
+  | incProduce =>
+    simp only [hpc] at hs
+    cases hq : fifoPush c.b (c.q (c.outQ i)) (c.st i).cur with
+    | none => simp [hq] at hs
+    | some buf =>
+      simp only [hq] at hs; cases hs
+      obtain ⟨_, rfl⟩ := fifoPush_some hq
+      have := h.stage_produce hi (Or.inl hpc) (x := (c.st i).cur) (by simp [pend, hpc])
+      simpa [afterProduce, hpc] using this
+  | incPoison =>
+    simp only [hpc] at hs
+    cases hq : fifoPush c.b (c.q (c.outQ i)) (c.st i).cur with
+    | none => simp [hq] at hs
+    | some buf =>
+      simp only [hq] at hs; cases hs
+      obtain ⟨_, rfl⟩ := fifoPush_some hq
+      have := h.stage_produce hi (Or.inr (Or.inl hpc)) (x := (c.st i).cur) (by simp [pend, hpc])
+      simpa [afterProduce, hpc] using this
+  | poisonCall =>
+    simp only [hpc] at hs
+    cases hq : fifoPush c.b (c.q (c.outQ i)) Item.poison with
+    | none => simp [hq] at hs
+    | some buf =>
+      simp only [hq] at hs; cases hs
+      obtain ⟨_, rfl⟩ := fifoPush_some hq
+      have := h.stage_produce hi (Or.inr (Or.inr (Or.inl hpc))) (x := Item.poison) (by simp [pend, hpc])
+      simpa [afterProduce, hpc] using this
+  | dtor =>
+    simp only [hpc] at hs
+    cases hq : fifoPush c.b (c.q (c.outQ i)) (c.st i).cur with
+    | none => simp [hq] at hs
+    | some buf =>
+      simp only [hq] at hs; cases hs
+      obtain ⟨_, rfl⟩ := fifoPush_some hq
+      have := h.stage_produce hi (Or.inr (Or.inr (Or.inr hpc))) (x := (c.st i).cur) (by simp [pend, hpc])
+      simpa [afterProduce, hpc] using this
+  | finished => simp [hpc] at hs
+
+theorem rinv_mainStep (h : RInv b m data c) {c' : Chain} (hs : c.mainStep = some c') : RInv b m data c' := by
+  unfold Chain.mainStep at hs
+  cases hmn : c.main with
+  | fill k =>
+    cases k with
+    | zero => simp only [hmn] at hs; cases hs; exact h.main_fill0 hmn
+    | succ k =>
+      simp only [hmn] at hs
+      cases hq : fifoPush c.b (c.q 0) (Item.val 0) with
+      | none => simp [hq] at hs
+      | some buf =>
+        simp only [hq] at hs; cases hs
+        obtain ⟨_, rfl⟩ := fifoPush_some hq
+        exact h.main_fill hmn
+  | join i =>
+    simp only [hmn] at hs
+    cases hpc : (c.st (i - 1)).pc <;> simp only [hpc] at hs <;> try cases hs
+    have := h.main_join hmn hpc
+    simp only [← h.hm] at this ⊢
+    exact this
+  | drain k =>
+    simp only [hmn] at hs
+    cases hq : fifoPop (c.q 0) with
+    | none => simp [hq] at hs
+    | some pr =>
+      obtain ⟨x, rest⟩ := pr
+      obtain ⟨hkb, hr⟩ := h.main_drain hmn (fifoPop_some hq)
+      cases x with
+      | poison => simp only [hq] at hs; cases hs; exact hr
+      | val v =>
+        simp only [hq] at hs; cases hs
+        have : k ≠ c.b := by rw [h.hb]; omega
+        simpa [this] using hr
+  | aborted => simp [hmn] at hs
+  | finished => simp [hmn] at hs
+
+theorem rinv_step (h : RInv b m data c) {tid : Nat} {c' : Chain} (hs : c.step tid = some c') :
+    RInv b m data c' := by
   unfold Chain.step at hs
   cases tid with
-  | zero =>
-    simp only at hs
-    cases hm : c.main with
-    | fill k =>
-      cases k with
-      | zero => simp [hm] at hs; subst hs; exact h.frame rfl rfl rfl rfl
-      | succ k =>
-        simp only [hm] at hs
-        by_cases hlt : (c.qs.getD 0 []).length < c.b
-        · rw [if_pos hlt] at hs; injection hs with hs; subst hs
-          exact (h.push 0 _ hlt).frame rfl rfl rfl rfl
-        · rw [if_neg hlt] at hs; cases hs
-    | join i =>
-      simp only [hm] at hs
-      cases hst : c.spc[i - 1]? with
-      | none => simp [hst] at hs
-      | some st =>
-        cases st <;> simp [hst] at hs
-        subst hs; exact h.frame rfl rfl rfl rfl
-    | drain k =>
-      simp only [hm] at hs
-      cases hq : c.qs[0]?.getD [] with
-      | nil => simp [hq] at hs
-      | cons x rest =>
-        cases x with
-        | poison => simp [hq] at hs; subst hs; exact (h.pop 0 _ rest hq).frame rfl rfl rfl rfl
-        | val v => simp [hq] at hs; subst hs; exact (h.pop 0 _ rest hq).frame rfl rfl rfl rfl
-    | aborted => simp [hm] at hs
-    | finished => simp [hm] at hs
+  | zero => exact rinv_mainStep h hs
   | succ i =>
     simp only at hs
-    cases hst : c.spc[i]? with
-    | none => simp [hst] at hs
-    | some st =>
-      cases st with
-      | start =>
-        simp only [hst] at hs
-        cases hm : c.main <;> simp [hm] at hs <;> (subst hs; exact h.frame rfl rfl rfl rfl)
-      | consume =>
-        simp only [hst] at hs
-        cases hq : c.qs[i]?.getD [] with
-        | nil => simp [hq] at hs
-        | cons x rest =>
-          simp [hq] at hs; subst hs
-          exact (h.pop i x rest hq).frame rfl rfl rfl rfl
-      | produce x last =>
-        simp only [hst] at hs
-        by_cases hlt : (c.qs.getD (c.outQ i) []).length < c.b
-        · rw [if_pos hlt] at hs; injection hs with hs; subst hs
-          exact (h.push _ x hlt).frame rfl rfl rfl rfl
-        · rw [if_neg hlt] at hs; cases hs
-      | finished => simp [hst] at hs
+    by_cases hi : i ≤ c.m
+    · rw [if_pos hi] at hs; exact rinv_stageStep h (h.hm ▸ hi) hs
+    · rw [if_neg hi] at hs; cases hs
 
-theorem cinv_reach {c0 c : Chain} (h0 : CInv c0) (hr : Chain.Reach c0 c) : CInv c := by
+theorem rinv_init (b m : Nat) (data : List Nat) (hb : 0 < b) (hm : 1 ≤ m) :
+    RInv b m data (Chain.init b m data) := by
+  refine { hb := rfl, hm := rfl, hd := rfl, bpos := hb, mpos := hm, sok := ?_, q := ?_, q0 := ?_, mainok := ?_ }
+  · intro i _
+    refine ⟨by simp [Chain.init, pend, outFrom], by simp [Chain.init], by simp [Chain.init], by simp [Chain.init],
+            by simp [Chain.init], by simp [Chain.init], by simp [Chain.init], by simp [Chain.init],
+            by simp [Chain.init], by simp [Chain.init]⟩
+  · intro i _; simp [Chain.init]
+  · simp [Chain.init, fillRem]
+  · unfold MainOK
+    simp [Chain.init]
+
+theorem rinv_reach {b m : Nat} {data : List Nat} {c : Chain} (hb : 0 < b) (hm : 1 ≤ m)
+    (hr : Chain.Reach (Chain.init b m data) c) : RInv b m data c := by
   induction hr with
-  | init => exact h0
-  | step _ hs ih => exact cinv_step ih hs
+  | init => exact rinv_init b m data hb hm
+  | step _ hs ih => exact rinv_step ih hs
 
 end KV.Chain
